@@ -16,7 +16,8 @@ import (
 func init() {
 	register(&RuleSet{
 		ID: "C14",
-		Explanation: "R8 (ESP) no workspace function of package endorse returns a nil error on a path on which its latest ChangeOps.ReadFile failed without ChangeOps.IsNotFound saying so. " +
+		Explanation: "R9 (ESP) VersionControl.GetChangeOps is called at most once per attempt (no second retry level below the budgeted loop). " +
+			"R8 (ESP) no workspace function of package endorse returns a nil error on a path on which its latest ChangeOps.ReadFile failed without ChangeOps.IsNotFound saying so. " +
 			"On endorse.RetrySubmit (the retry loop) and the attempt function (discovered: the function of package endorse that invokes VersionControl.GetChangeOps): " +
 			"R1 (ESP) a further attempt starts only after the previous attempt failed and VersionControl.RetriableError returned true for an error value derived from that attempt; " +
 			"R2 (CFG) the loop has a loop-carried integer counter incremented on every back edge and every back edge is dominated by a comparison that depends on that counter and on Context.CommitRetries and has a loop-exit edge; " +
@@ -185,6 +186,9 @@ func runC14(c *Ctx) {
 		case evGet:
 			switch ph {
 			case esp.AtCall:
+				if s.Has(bGetThisAttempt) {
+					return s, "R9: a workspace is requested a second time within one attempt, state " + st + ": retries that the attempt counter of RetrySubmit does not see multiply the budget (up to (retries+1)² attempts)"
+				}
 				return s.Set(bGetThisAttempt), ""
 			case esp.Ok:
 				return s.Set(bGotWs).Clear(bDestroyed), ""
